@@ -5,6 +5,7 @@ import (
 	"math"
 	"regexp"
 	"strconv"
+	"strings"
 	Time "time"
 )
 
@@ -289,9 +290,19 @@ func dateParse(date string) float64 {
 		}
 	}
 
+	// 15.9.1.15: HH may be 24 (T24:00[:00[.000]]), the end of that day.
+	var endOfDay Time.Duration
+	if i := strings.Index(date, "T24:00"); i >= 0 {
+		if rest := strings.TrimLeft(date[i+6:], ":.0"); rest == "" || rest[0] == '+' || rest[0] == '-' {
+			date = date[:i+1] + "00" + date[i+3:]
+			endOfDay = 24 * Time.Hour
+		}
+	}
+
 	for _, layout := range dateLayoutList {
 		time, err = Time.Parse(layout, date)
 		if err == nil {
+			time = time.Add(endOfDay)
 			break
 		}
 	}
